@@ -1195,7 +1195,7 @@ ASSIGN_SYM = {"+=": "+", "-=": "-", "*=": "*", "/=": "/", "+": "+", "-": "-", "*
 
 def _storage_base(t):
     """Vector operands are addressed through `.vec`: normalise idx bases to the owning object."""
-    if t[0] == "field" and t[2] == "vec":
+    if t[0] == "field" and t[2] in ("vec", "mat"):          # Vector's and Matrix's flat storage: an element of it is an element of the owner
         return t[1]
     return t
 
@@ -1865,6 +1865,26 @@ def rule_empty_safe(rep, pdb, fn, key, lens, what, skip=()):
                 return False
         return True
 
+    def nonempty_invariant(node):
+        """node sits in a `while` that is entered only with a non-empty container and whose body does nothing but `pop` while the
+        loop condition has the conjunct len > 1: the container never becomes empty inside the loop (len >= 1 is invariant)."""
+        for w in [a for a in ancestors(node) if a.get("k") == "While"]:
+            if reachable(w):
+                continue
+            atoms = cond_atoms(ctx, w["cond"], True)
+            guard = any(a[0] == "cmp" and ((a[1] == "<" and a[2] == num(1) and a[3] in lens) or (a[1] == "<=" and a[2] == num(2) and a[3] in lens)) for a in atoms)
+            stmts = list(w["body"].get("stmts", [])) + ([{"e": w["body"]["expr"]}] if w["body"].get("expr") is not None else [])
+            only_pops = bool(stmts) and all(strip(st_.get("e") or {}).get("k") == "MethodCall" and strip(st_["e"]).get("name") == "pop" and
+                                            ("len", ctx.term(strip(st_["e"])["recv"])) in lens for st_ in stmts)
+            if guard and only_pops:
+                return True
+        return False
+
+    _reach0 = reachable
+
+    def reachable(node, _r=_reach0):          # noqa: F811
+        return _r(node) and not nonempty_invariant(node)
+
     def report(node, msg):
         k = "%s/%s" % (key, fn["path"])
         seq[k] = seq.get(k, 0) + 1
@@ -2080,3 +2100,31 @@ def rule_no_skipping_return(rep, pdb, fn, key, domain=(), what="the sweep"):
             dets.append("return at %s skips only empty loops" % loc(r))
     rep.add(key, rule, ok, where or fn["body"], "; ".join(dets) or "no early return", where=loc(where) if where is not None else loc(fn["body"]))
     return ok
+
+
+# ---------------------------------------------------------------- "a fresh vector v of length n with v[i] = f(i)"
+
+def fresh_map(pdb, ctx, root=None):
+    """The one loop that builds a fresh Vec element by element, in either spelling:
+         let mut v = vec![z; n]; for i in 0..n { v[i] = f(i) }          (kind 'set')
+         let mut v = Vec::new(); for i in 0..n { v.push(f(i)) }          (kind 'push'; also what `.map(f).collect()` canonicalises to)
+       -> dict(i=loop var term, lo, hi, value=f(i) term, target=v term, kind) with hi the loop's upper bound, or None.
+       For the 'set' form the allocated length must equal hi; the loop must be total (no early exit)."""
+    effs = [e for e in effects(pdb, ctx, root) if e.kind in ("set", "push") and e.loops and len(e.loops) == 1]
+    if len(effs) != 1:
+        return None
+    e = effs[0]
+    r = for_range_total(ctx, e.loops[0])
+    if r is None or r[3] or r[4] or e.target[0] != "var":
+        return None
+    tb = ctx.binds.get(e.target[1])
+    ti = ctx.term(tb.init) if tb is not None and tb.init is not None else None
+    if ti is None or ti[0] != "call":
+        return None
+    if e.kind == "set":
+        if not (str(ti[1]).endswith("from_elem") and len(ti) == 4 and ti[3] == r[2] and e.index == r[0]):
+            return None
+    else:
+        if not (str(ti[1]).endswith("::new") and len(ti) == 2):
+            return None
+    return {"i": r[0], "lo": r[1], "hi": r[2], "value": e.value, "target": e.target, "kind": e.kind, "node": e.node}
